@@ -46,7 +46,7 @@ META = {
     "min_evaluations": {"quick": 6000, "thorough": 200000},
 }
 EXTRA_OPS = ["construct", "ring", "derivative", "call", "align", "pickle", "lead", "compare", "divmod",
-             "getset"]
+             "getset", "program", "program"]
 
 
 def shards(tier, seed):
@@ -109,6 +109,16 @@ def gen_extra(g, name):
     case = {"op": name, "operands": [a, b], "kw": {}}
     if name == "derivative":
         case["kw"] = {"name": rng.choice(a["names"])}
+    if name == "pickle":
+        # representation with explicit all-zero terms (as kept by retain_coefficients)
+        a = g.poly(shape=shape, kind=kind, maxexp=3, nterms=rng.choice([3, 4, 5]), via="retain",
+                   allow_views=False)
+        for k in rng.sample(range(len(a["coefs"])), rng.choice([1, 1, 2])):
+            if any(a["exps"][k]):
+                a["coefs"][k] = G.nested_map(lambda v: 0 if kind == "int" else 0.0, a["coefs"][k])
+        case["operands"] = [a, b]
+    if name == "program":
+        case["kw"] = {"which": rng.randrange(6), "c": rng.choice([1, 2, 3]), "n": rng.choice([2, 3])}
     if name == "divmod":
         names = rng.choice([["q0"], ["q0", "q1"]])
         case["operands"] = [
@@ -145,7 +155,12 @@ def run_extra(case, real):
         return (numpoly.align_polynomials(a, b), numpoly.align_exponents(a, b),
                 numpoly.align_indeterminants(a, b), numpoly.align_shape(a, b))
     if name == "pickle":
-        return pickle.loads(pickle.dumps(a)), a.copy()
+        import copy
+        zeroed = a - a + b * 0  # all terms cancel: what is kept depends on the options
+        back = pickle.loads(pickle.dumps(a))
+        return (back, a.copy(), back + 1, back * b, copy.deepcopy(a),
+                pickle.loads(pickle.dumps(zeroed, protocol=2)),
+                pickle.loads(pickle.dumps(a * b - a * b + a)))
     if name == "lead":
         return (numpoly.lead_exponent(a, graded=True), numpoly.lead_coefficient(a, graded=True),
                 numpoly.lead_exponent(a, reverse=True), numpoly.lead_coefficient(a),
@@ -154,6 +169,34 @@ def run_extra(case, real):
         return a < b, a >= b, a == b, a != b, numpoly.maximum(a, b), numpoly.minimum(a, b)
     if name == "divmod":
         return numpoly.poly_divmod(a, b)
+    if name == "program":
+        # whole programs executed inside the option block: everything, including the
+        # indeterminates, is created under the setting
+        import copy
+        which, c, n = case["kw"]["which"], case["kw"]["c"], case["kw"]["n"]
+        q0, q1, q2 = numpoly.variable(3)
+        if which == 0:
+            p = numpoly.polynomial([q0 + q1 + q0 * q1 + c, 2 * q0 - q1]) - q0 * q1
+            r = pickle.loads(pickle.dumps(p))
+            return p, r, r + 1, r * q2, numpoly.sum(r)
+        if which == 1:
+            basis = numpoly.monomial(0, n + 1, dimensions=2)
+            p = numpoly.sum(basis * (numpy.arange(len(basis)) % 2 * c))
+            r = copy.deepcopy(p)
+            return p, r * 2, pickle.loads(pickle.dumps(p, protocol=2)) - p, r.isconstant()
+        if which == 2:
+            p = (q0 + q1) ** n - (q0 - q1) ** n
+            s = p - 2 * n * q0 ** (n - 1) * q1 if n == 2 else p
+            return p, s, s.tonumpy() if s.isconstant() else s * 1, numpoly.lead_coefficient(p)
+        if which == 3:
+            p = numpoly.polynomial({(0, 0): [1, c], (1, 0): [0, 0], (0, 1): [3, 4]}, names=("q0", "q1"))
+            return p, pickle.loads(pickle.dumps(p)) * 2, p[0], numpoly.concatenate([p, p + q0])
+        if which == 4:
+            p = numpoly.polynomial([[q0 * q2, c], [q1 - q1, q2 ** n]])
+            return p.T, numpoly.sum(p, axis=0), numpoly.prod(p, axis=1), p @ p, numpoly.diag(p)
+        p = c * q0 ** n * q1 - q2
+        z = p - p
+        return z, z + 1, pickle.loads(pickle.dumps(z)), (p * z).tonumpy()
     if name == "getset":
         return a[..., None] if a.ndim else a[None], a.ravel(), a.T, list(a)[:2] if a.ndim else None
     raise ValueError(name)
